@@ -226,6 +226,11 @@ func (e *Env) RelayAddr(i int) string {
 
 // NewEnv builds the services. initial is the config source's first outcome (fetched during construction).
 func NewEnv(accts []harness.Acct, nNodes int, initial Outcome, bidder *Bidder) (*Env, error) {
+	return NewEnvWith(accts, nNodes, initial, bidder, map[phase0.BLSPubKey]*blockrelay.BuilderConfig{})
+}
+
+// NewEnvWith is NewEnv with per-builder configurations.
+func NewEnvWith(accts []harness.Acct, nNodes int, initial Outcome, bidder *Bidder, builderConfigs map[phase0.BLSPubKey]*blockrelay.BuilderConfig) (*Env, error) {
 	ctx := context.Background()
 	e := &Env{Config: &Majordomo{}, Sched: harness.NewCapSched(), Clock: harness.NewVClock(12*time.Second, 32), Accounts: &Accounts{List: accts, Err: true},
 		Relays: map[string]*harness.Relay{}, FallbackFR: refcfg.FRAddr(999), FallbackGL: 30000000, Tag: fmt.Sprintf("e%d", envNo.Add(1)), Bidder: bidder}
@@ -257,7 +262,7 @@ func NewEnv(accts []harness.Acct, nNodes int, initial Outcome, bidder *Bidder) (
 		relaystd.WithListenAddress("127.0.0.1:0"), relaystd.WithChainTime(e.Clock), relaystd.WithConfigURL("file:///config.json"), relaystd.WithFallbackFeeRecipient(e.FallbackFR),
 		relaystd.WithFallbackGasLimit(e.FallbackGL), relaystd.WithAccountsProvider(e.Accounts), relaystd.WithValidatorsProvider(mock.NewValidatorsProvider()),
 		relaystd.WithValidatingAccountsProvider(e.Accounts), relaystd.WithValidatorRegistrationSigner(sg), relaystd.WithSecondaryValidatorRegistrationsSubmitters(secondaries),
-		relaystd.WithReleaseVersion("verif"), relaystd.WithBuilderBidProvider(e.Bidder), relaystd.WithBuilderConfigs(map[phase0.BLSPubKey]*blockrelay.BuilderConfig{}))
+		relaystd.WithReleaseVersion("verif"), relaystd.WithBuilderBidProvider(e.Bidder), relaystd.WithBuilderConfigs(builderConfigs))
 	if err != nil {
 		return nil, err
 	}
